@@ -223,7 +223,7 @@ fam(r"crrl::frost::ed448::scalar_decode", ["C15"], [
 # ---------------- C16: LMS verify ----------------
 fam(r"crrl::lms::[A-Za-z0-9_]+::PublicKey::verify", ["C16"], [
     g(len_eq("sig", r"\d+"), "exact signature size"),
-    g(r"elemcmp:be\(sig\[0\.\.4\]\) Ge {pow2:h}", "leaf index q < 2^h, with 2^h taken from the parameter set's const h"),
+    g(r"elemcmp:be\(sig\[0\.\.4\]\) Lt {pow2:h}", "leaf index q < 2^h, with 2^h taken from the parameter set's const h"),
     g(r"elemcmp:be\(sig\[4\.\.8\]\) (Ne|Eq) {const:ots_type}", "LM-OTS type code (first word of the one-time signature)"),
     g(r"elemcmp:be\(sig\[\d+\.\.\d+\]\) (Ne|Eq) {const:key_type}", "LMS type code"),
     g(call(r"slice_eq", ANY, r"(PublicKey|jq255e|jq255s|gls254|LMS\w+)::\w+"), "recomputed root equals the public key root"),
